@@ -18,8 +18,8 @@ open LispModel LispModel.Core LispModel.Proofs.EvalCancel LispModel.Proofs.EvalT
 /-- EVAL returns either a value or an error (or the model runs out of fuel): exactly three outcomes. -/
 theorem eval_outcomes_total (F : Nat) (st : State) (env : Nat) (ast : Val) (d : Nat) :
     (∃ v, (eval F st env ast d).1 = .ok v) ∨ (∃ e, (eval F st env ast d).1 = .err e) ∨
-      (eval F st env ast d).1 = .oof := by
-  cases (eval F st env ast d).1 <;> simp
+      (eval F st env ast d).1 = .oof :=
+  res_cases _
 
 /-- Every such error is an ordinary lisp error that try/catch can handle: for EVERY form `ast`, if its
     evaluation as the body of a try (after the try form's poll, one EVAL frame deeper) returns an error `e`
@@ -55,6 +55,16 @@ theorem malformed_special_forms_are_errors (st : State) (hl : Live st) (env : Na
    fun hm a1 rest arr ha hodd => ⟨_, let_odd_bindings hl hm F p a1 rest pos d arr ha hodd⟩,
    fun bad ps pp body fenv m fp args ast hbad => ⟨_, call_non_symbol_param F st bad ps pp body fenv m fp args ast d hbad⟩,
    fun hm x q cargs cp hshort => ⟨_, try_short_catch hl hm F p x q cargs cp pos d hshort⟩⟩
+
+/-- Wrong argument counts and wrong argument types: a reflectively bound builtin (every builtin except the
+    eleven with store effects or callbacks, `effectfulNames`) whose binder check `checkSig` rejects the
+    arguments returns an error — in Go the recovered `reflect.Value.Call` panic — and changes nothing; the
+    application arm then re-wraps it (`callArm_builtin_err`), and `errors_are_catchable` applies. -/
+theorem wrong_arguments_are_errors (F : Nat) (st : State) (name : String) (args : List Val) (d : Nat)
+    (hn : name ∉ effectfulNames) (s : Sig) (hs : sigOf name = some s) (msg : String)
+    (hc : checkSig s args = some msg) :
+    ∃ e, callBuiltin (F + 1) st name args d = (.err e, st) :=
+  wrong_arguments_error F st name args d hn s hs msg hc
 
 /-! ### non-vacuity: concrete malformed programs on `initState`, each caught by try/catch -/
 
